@@ -394,7 +394,10 @@ def run_seq(case):
                 names = sorted({METHODS[i] for i in idxs} - {"parent"} - set(COMPOSITE))
                 n0 = len(k.log)
                 if how in ("unknown", "nonlist"):
-                    arg = names + ["bogus_attr"] if how == "unknown" else "name"
+                    bad = BAD_NAMES[sum(idxs) % len(BAD_NAMES)]
+                    arg = names + [bad] if how == "unknown" else "name"
+                    if how == "unknown" and bad != "bogus_attr":
+                        labels.add("as_dict-rejected-real-attribute")
                     want_exc = ValueError if how == "unknown" else TypeError
                     try:
                         p.as_dict(attrs=arg, ad_value=ad)
@@ -632,6 +635,14 @@ def run_sched(case):
         nontrivial = "sched|" + case["main"] + "|" + ",".join(hot) + "|mut=%s|thr=%d" % (
             case["mutate"], len(case["others"]))
     return Result(sorted(labels), nontrivial)
+
+
+# names as_dict() must refuse: anything outside psutil's own list of valid
+# names ("The valid attr names which can be processed by Process.as_dict()"),
+# i.e. also the public Process attributes which are actions or take arguments
+BAD_NAMES = ("bogus_attr", "bogus_attr", "terminate", "kill", "suspend", "resume", "send_signal", "wait",
+             "is_running", "as_dict", "oneshot", "parent", "parents", "children", "rlimit", "_name", "_init",
+             "__class__", "")
 
 
 def run_case(case):
